@@ -22,6 +22,7 @@ import (
 	"os"
 	"sort"
 	"strconv"
+	"strings"
 	"testing"
 
 	"pgregory.net/rapid"
@@ -280,10 +281,34 @@ func boundary(e *enum, v int64) bool {
 	return false
 }
 
+// retention: a returned name is a value; later calls must not rewrite it. The last
+// results are kept together with a private copy taken at return time and re-compared
+// after every later call (a stringer that formats into shared storage fails here).
+type kept struct{ got, copyAtReturn, what string }
+
+var ring [64]kept
+var ringN int
+
+func retain(got, what string) *pbt.Fail {
+	for i := range ring {
+		if k := &ring[i]; k.what != "" && k.got != k.copyAtReturn {
+			f := pbt.Failf("retained", "the string returned earlier by %s read %q when it was returned and reads %q after a later call (%s): results share storage", k.what, k.copyAtReturn, k.got, what)
+			ring = [64]kept{}
+			return f
+		}
+	}
+	ring[ringN%len(ring)] = kept{got, strings.Clone(got), what}
+	ringN++
+	return nil
+}
+
 func evalEnum(e *enum, v int64) *pbt.Fail {
 	got, pan := call(e.Str, v)
 	if pan != "" {
 		return pbt.Failf("panic:"+e.Name, "%s on value %d panicked: %s", e.Name, v, pan)
+	}
+	if f := retain(got, fmt.Sprintf("%s(%d)", e.Name, v)); f != nil {
+		return f
 	}
 	if want, ok := e.Doc[v]; ok && got != want {
 		return pbt.Failf(fmt.Sprintf("doc:%s:%d", e.Name, v), "%s on documented value %d returned %q, documented name is %q", e.Name, v, got, want)
@@ -363,6 +388,9 @@ func evalTagName(it int, id int) *pbt.Fail {
 	}()
 	if pan != "" {
 		return pbt.Failf("panic:TagName", "IfdType(%d).TagName(0x%04x) panicked: %s", it, id, pan)
+	}
+	if f := retain(got, fmt.Sprintf("IfdType(%d).TagName(0x%04x)", it, id)); f != nil {
+		return f
 	}
 	if m, ok := docTagNames[it]; ok {
 		if want, ok := m[id]; ok && got != want {
@@ -487,7 +515,7 @@ func TestProp(t *testing.T) {
 	rec.Rule("exhaustive: every value of every exported enum / identifier stringer over its whole domain (8-bit and 16-bit types completely, signed types from their minimum, " +
 		"CameraModel over the four make ranges +-4096, tag.ID x IfdType through TagName for IfdType 0..31,127,128,254,255 (thorough: all 256)), every member name through the FromString / Identify parsers; " +
 		"random: uint32 camera models, parser texts, TagName pairs. Oracles: returns (recover => violation); documented value => documented name (tables written in the check from doc comments / cited specifications); " +
-		"whole relation == pinned snapshot, non-members => fallback (hex id for tag names); FromString(String(v)) == v, FromString('.'+Extension(v)) == v for image types, IdentifyNamespace(String(ns)) == ns. " +
+		"a returned string is unchanged by the next 64 calls; whole relation == pinned snapshot, non-members => fallback (hex id for tag names); FromString(String(v)) == v, FromString('.'+Extension(v)) == v for image types, IdentifyNamespace(String(ns)) == ns. " +
 		"non-trivial = documented or pinned member, or a boundary neighbour (member+-1, -1, 0, min, max); distinct by (stringer, value)")
 	rec.Assume("testdata/golden.json pins the relation as of the commit named in DESIGN.md; it is a regression oracle and is regenerated only together with a reviewed fix")
 	rec.Assume("unexported stringers (box types, JPEG markers, hdlr types) are reachable only through logging and are exercised by C15, not here")
